@@ -2,6 +2,7 @@
     Statements only.  The snapshot transfer itself (async-raft-ext InstallSnapshot RPCs) is
     trusted; [faithful] is the snapshot round-trip law of the components (C01). *)
 From RN Require Import Base.Res Cluster.Install Cluster.InstallProofs.
+From RN Require Import RaftLog.LogFile RaftLog.Layout RaftLog.RecordProofs RaftLog.LogManager RaftLog.InstallLogProofs.
 Local Open Scope N_scope.
 
 (** a node that joins late serves exactly the leader's data once the snapshot is installed *)
@@ -38,3 +39,18 @@ Proof. exact install_old_refuted. Qed.
 Theorem C08_install_membership_from_header : forall cur cached header,
   install_membership cur cached header = header.
 Proof. exact install_membership_from_header. Qed.
+
+(** The log side of an install whose snapshot covers the whole local log (delete_through = None ->
+    SplitOff(u64::MAX), then InstallSnapshotPointerLog), on the RaftLogManager model, for EVERY tidy
+    manager state: the catalogue becomes one fresh file that starts at the snapshot index and holds
+    the pointer record, and the next append is accepted.  (Before repair b4420c3 the stale open
+    file stayed current, the append was rejected and async-raft shut the Raft core down.) *)
+Theorem C08_install_covering_log_then_append : forall m ptr x,
+  mgr_tidy m -> HDR_LEN + 10 < m_limit m <= 4096 ->
+  rec_ok ptr /\ rec_nonempty ptr ->
+  rec_ok x /\ rec_nonempty x /\ r_index x = r_index ptr + 1 ->
+  DATA0 + nlen (rec_frame ptr) + nlen (rec_frame x) < DATA_MAX ->
+  let m1 := mgr_save_pointer (mgr_split_off m U64MAX) ptr in
+  m_logs m1 = [fresh_range ptr] /\ m_saved m1 = [fresh_range ptr] /\
+  snd (mgr_write 3 m1 x true) = WOk.
+Proof. exact install_covering_log_then_append. Qed.
